@@ -283,5 +283,94 @@ Definition cleanb (s : state) : bool :=
     end) (st_fs s)
   && ((st_rec s =? 0) || existsb (fun o => d_is (d_vn o) (DFinal (st_rec s)) && d_is (d_dn o) (DFinal (st_rec s))) (st_fs s)).
 
+(* ---------------------------------------------------------------------- *)
+(* on-disk state machines: node.recover (node.go) after a snapshot was recorded.
+   RecoverFromSnapshot is not required to be durable: the state machine has a
+   volatile applied index and a durable one (what Open returns after a crash);
+   Sync makes the volatile state durable.  After sm.Recover, node.recover calls
+   sm.Sync and snapshotter.Shrink in their source order (Gen.GenC16). *)
+
+Record dstate := mkDS { ds_st : state; ds_smv : N; ds_smd : N }.
+
+Inductive dop :=
+| DBase (o : op)
+| DSmRecover (i : N)   (* IOnDiskStateMachine.RecoverFromSnapshot of image i *)
+| DSmSync.             (* IOnDiskStateMachine.Sync *)
+
+Definition dstep (s : dstate) (o : dop) : dstate :=
+  match o with
+  | DBase OCrash => mkDS (step' (ds_st s) OCrash) (ds_smd s) (ds_smd s)
+  | DBase b => mkDS (step' (ds_st s) b) (ds_smv s) (ds_smd s)
+  | DSmRecover i => mkDS (ds_st s) i (ds_smd s)
+  | DSmSync => mkDS (ds_st s) (ds_smv s) (ds_smv s)
+  end.
+
+Definition drun (s : dstate) (ops : list dop) : dstate := fold_left dstep ops s.
+
+(* the part of node.recover after sm.Recover returned snapshot i *)
+Definition recover_tail (shrink : list op) : list dop :=
+  if recover_pos_sync <? recover_pos_shrink
+  then DSmSync :: map DBase shrink
+  else map DBase shrink ++ [DSmSync].
+
+(* node.recover for recorded snapshot i; [load]: sm.Recover loaded the image *)
+Definition recover_prog (s : dstate) (i : N) (load : bool) : dstate * list dop * outcome :=
+  let '(_, tr, oc) := do_cmd (fun l => l) (ds_st s) (CShrink i) in
+  let ops := (if load then [DSmRecover i] else []) ++ recover_tail tr in
+  (drun s ops, ops, oc).
+
+(* the recorded snapshot file as the running process sees it *)
+Definition recorded_file (s : dstate) : option data :=
+  read_file (DFinal (st_rec (ds_st s))) (FSnap (st_rec (ds_st s))) (st_fs (ds_st s)).
+
+(* a live replica installs the recorded snapshot i (pushed by processSnapshot) *)
+Definition cmd_recover (s : dstate) (i : N) : dstate * list dop * outcome :=
+  if negb (i =? 0) && (st_rec (ds_st s) =? i) && (ds_smv s <? i) then
+    match recorded_file s with
+    | Some d => if valid_snap d && negb (is_shrunk d) then recover_prog s i true else (s, [], Skipped)
+    | None => (s, [], Skipped)
+    end
+  else (s, [], Skipped).
+
+(* node.processSnapshot + node.recover for received snapshot i on a live replica.
+   [lr] is the index of the snapshot the LogReader holds (volatile node state, kept
+   by the caller): LogReader.ApplySnapshot releases it, and the release of the
+   last reference is snapshotter.Compact of that older snapshot *)
+Definition cmd_install (s : dstate) (lr i : N) : dstate * list dop * outcome :=
+  match cmd_recover s i with
+  | (_, _, Skipped) => (s, [], Skipped)
+  | _ =>
+    let '(_, tr, _) :=
+      if negb (lr =? 0) && (lr <? i) then do_cmd (fun l => l) (ds_st s) (CCompact lr)
+      else (ds_st s, [], Done) in
+    let s1 := drun s (map DBase tr) in
+    let '(s2, tr2, oc) := cmd_recover s1 i in
+    (s2, map DBase tr ++ tr2, oc)
+  end.
+
+(* replica start after processOrphans: OpenOnDiskStateMachine, then the initial
+   node.recover. A shrunk recorded snapshot whose OnDiskIndex is beyond what the
+   state machine has durably is a panic (checkPartialSnapshotApplyOnDiskSM) *)
+Definition init_recover (s : dstate) : dstate * list dop * outcome :=
+  let r := st_rec (ds_st s) in
+  if r =? 0 then (s, [], Done) else
+  match recorded_file s with
+  | None => (s, [], Failed)
+  | Some d =>
+    if negb (valid_snap d) then (s, [], Panicked)
+    else if is_shrunk d then
+      if r <=? ds_smd s then recover_prog s r false else (s, [], Panicked)
+    else recover_prog s r (ds_smd s <? r)
+  end.
+
+(* what the property asks of the state a crash leaves *)
+Definition restart_okb (s : dstate) : bool :=
+  let r := st_rec (ds_st s) in
+  (r =? 0) ||
+  match recorded_file s with
+  | Some d => valid_snap d && (negb (is_shrunk d) || (r <=? ds_smd s))
+  | None => false
+  end.
+
 (* only so that the extracted code contains the type of Z (ocaml/common/util.ml) *)
 Definition c16_unused_z (x : N) : BinNums.Z := BinInt.Z.of_N x.
